@@ -109,8 +109,13 @@ fn skel_into(node: &SyntaxNode, in_math: bool, sort_imports: bool, out: &mut Str
     } else {
         let args_in_math = k == K::Args && in_math;
         let mut parts: Vec<String> = Vec::new();
+        let mut after_hash = false;
         for c in node.children() {
             let ck = c.kind();
+            let child_math = math_here && !after_hash;
+            if !matches!(ck, K::Space) {
+                after_hash = ck == K::Hash;
+            }
             if matches!(ck, K::Space | K::Parbreak | K::LineComment | K::BlockComment | K::Shebang) {
                 continue;
             }
@@ -123,7 +128,7 @@ fn skel_into(node: &SyntaxNode, in_math: bool, sort_imports: bool, out: &mut Str
                 }
             }
             let mut s = String::new();
-            skel_into(c, math_here, sort_imports, &mut s);
+            skel_into(c, child_math, sort_imports, &mut s);
             parts.push(s);
         }
         if k == K::ImportItems && sort_imports {
@@ -278,20 +283,35 @@ pub fn obs_comments(root: &SyntaxNode) -> Vec<(String, String, String, String)> 
 
 // ---------------------------------------------------------------- directive (C07)
 
-fn collect_off(node: &SyntaxNode, out: &mut Vec<(String, String)>) {
+fn is_prose_kind(k: K) -> bool {
+    matches!(k, K::Text | K::Space | K::Parbreak | K::Linebreak | K::Escape | K::Shorthand | K::SmartQuote)
+}
+
+fn collect_off(node: &SyntaxNode, out: &mut Vec<Option<(String, String)>>) {
     let mut pending = false;
     for c in node.children() {
         let k = c.kind();
         if is_comment(k) {
             if c.text().contains("@typstyle off") {
+                if pending {
+                    // the earlier directive has no target of its own
+                }
                 pending = true;
+                out.push(None);
             }
             continue;
         }
         if pending && !matches!(k, K::Space | K::Hash) {
             pending = false;
-            if c.is::<ast::Expr>() || matches!(k, K::Code | K::Math) {
-                out.push((format!("{:?}", k), strip_line_ends(&c.clone().into_text())));
+            if (c.is::<ast::Expr>() || matches!(k, K::Code | K::Math)) && !is_prose_kind(k) {
+                // every directive that is still waiting protects this node
+                let v = Some((format!("{:?}", k), strip_line_ends(&c.clone().into_text())));
+                for slot in out.iter_mut().rev() {
+                    if slot.is_none() {
+                        *slot = v.clone();
+                        break;
+                    }
+                }
             }
             continue;
         }
@@ -299,11 +319,17 @@ fn collect_off(node: &SyntaxNode, out: &mut Vec<(String, String)>) {
     }
 }
 
-/// For every directive comment: kind and source text of the node it protects.
-pub fn obs_off(root: &SyntaxNode) -> Vec<(String, String)> {
+/// For every directive comment (in leaf order): kind and source text of the node it protects, if that
+/// node is an expression, a code body or an equation body.
+pub fn obs_off(root: &SyntaxNode) -> Vec<Option<(String, String)>> {
     let mut v = Vec::new();
     collect_off(root, &mut v);
     v
+}
+
+/// C07 oracle: every directive of the input that protects a node must protect the same text in the output.
+pub fn off_preserved(a: &[Option<(String, String)>], b: &[Option<(String, String)>]) -> bool {
+    a.len() == b.len() && a.iter().zip(b.iter()).all(|(x, y)| x.is_none() || x == y)
 }
 
 // ---------------------------------------------------------------- markup (C08)
@@ -335,8 +361,10 @@ fn obs_markup_node(node: &SyntaxNode, out: &mut Vec<Vec<String>>) {
                     items.push(format!("Ref:{}", m.unwrap_or_default()))
                 }
                 K::Heading | K::ListItem | K::EnumItem | K::TermItem => items.push("Block".to_string()),
-                K::LineComment | K::BlockComment | K::Hash | K::Semicolon | K::Shebang | K::Strong | K::Emph
-                | K::Raw | K::Equation => items.push(format!("{:?}", c.kind())),
+                K::LineComment | K::BlockComment | K::Shebang => {}
+                K::Hash | K::Semicolon | K::Strong | K::Emph | K::Raw | K::Equation => {
+                    items.push(format!("{:?}", c.kind()))
+                }
                 _ => items.push("Code".to_string()),
             }
         }
@@ -352,7 +380,22 @@ fn obs_markup_node(node: &SyntaxNode, out: &mut Vec<Vec<String>>) {
             }
             filtered.push(it.clone());
         }
-        let items = filtered;
+        // comments are transparent: merge the blanks around them into the strongest class
+        let rank = |s: &str| if s == "<S>" { 1 } else if s == "<B>" { 2 } else { 3 };
+        let mut items: Vec<String> = Vec::new();
+        for it in filtered {
+            if it.starts_with('<') {
+                if let Some(last) = items.last_mut() {
+                    if last.starts_with('<') {
+                        if rank(&it) > rank(last) {
+                            *last = it;
+                        }
+                        continue;
+                    }
+                }
+            }
+            items.push(it);
+        }
         // merge Text <S> Text the way the lexer would after whitespace normalisation
         let mut merged: Vec<String> = Vec::new();
         for it in items {
